@@ -369,6 +369,22 @@ func genStmt(rng *rand.Rand) refStmt {
 			tag("window-none")
 		case k <= 2:
 			d := pick(rng, durations)
+			if rng.Intn(6) == 0 {
+				// a size written as a number is a number of seconds: bare, or quoted and purely numeric
+				n := pick(rng, []string{"90", "5", "1"})
+				if rng.Intn(2) == 0 {
+					items = append(items, gitem{[]srcTok{kwT("TumblingWindow"), opT("lparen"), numT(n), opT("rparen")}})
+				} else {
+					items = append(items, gitem{[]srcTok{kwT("TumblingWindow"), opT("lparen"), strT('\'', n), opT("rparen")}})
+				}
+				secs, _ := strconv.Atoi(n)
+				wtype, ctype = "TUMBLINGWINDOW", "tumbling"
+				wparams = []string{"int:" + n}
+				cparams = []string{strconv.FormatInt(int64(secs)*int64(time.Second), 10)}
+				tag("window-tumbling")
+				tag("window-size-in-seconds")
+				break
+			}
 			items = append(items, gitem{[]srcTok{kwT("TumblingWindow"), opT("lparen"), strT('\'', d), opT("rparen")}})
 			wtype, ctype = "TUMBLINGWINDOW", "tumbling"
 			wparams = []string{"string:" + d}
